@@ -45,6 +45,7 @@ const (
 	evRNext       = 38
 	evRUnlock     = 39
 	evRSigPre     = 40
+	evWNextBusy   = 41
 	evFTake       = 50
 	evFPutW       = 51
 	evFWTake      = 52
@@ -78,6 +79,9 @@ type Case struct {
 }
 
 func genCase(r *gen.Rand, i int) any {
+	if i == 0 && *queueKind == "ring" {
+		return Case{Queue: "ring-buffered", Factor: 1}
+	}
 	c := Case{Queue: *queueKind, Factor: gen.Pick(r, []int{1, 1, 2}), Putters: r.Range(1, 6), Each: r.Range(1, 5), Seed: r.U64()}
 	if r.Chance(1, 5) {
 		c.Putters = r.Range(6, 12) // more than 2N callers: two tickets parked on one slot
@@ -562,6 +566,8 @@ func translateRing(c Case, info *runInfo) (string, string, map[string]int, strin
 			} else {
 				emitAt(i, "mkc WNext 0", ringDigit(3, 0, 0, 0, -1))
 			}
+		case evWNextBusy:
+			emitAt(i, "mk WNextBusy", ringDigit(11, 0, 0, -1, -1))
 		case evWPark:
 			if !inWait {
 				emitAt(i, "mkc WWaitEnter 0", ringDigit(4, 0, 0, 0, -1))
@@ -645,6 +651,9 @@ func run(ci any) (res obs.Result) {
 	c := ci.(Case)
 	if stuckRuns >= 3 {
 		return obs.Result{Kind: "skipped-after-stuck", Sig: "skipped"}
+	}
+	if c.Queue == "ring-buffered" {
+		return runBuffered(c)
 	}
 	info := runQueue(c)
 	if info.stuck {
